@@ -1,8 +1,10 @@
 package sym
 
 import (
+	"encoding/json"
 	"fmt"
 	"go/types"
+	"reflect"
 	"math"
 	"net"
 	"net/textproto"
@@ -631,6 +633,149 @@ func init() {
 		return Str{S: e.urlOf(p).String()}
 	}
 
+	// ------------------------------------------------------------ net/http.ServeMux: exact-path dispatch
+	type muxState struct {
+		pats []string
+		hs   []Value // http.Handler interface values
+	}
+	muxOf := func(e *Engine, p *Value) *muxState {
+		m, ok := e.side[p].(*muxState)
+		if !ok {
+			m = &muxState{}
+			e.side[p] = m
+		}
+		return m
+	}
+	intrinsics["(*net/http.ServeMux).Handle"] = func(e *Engine, fr *frame, fn *ssa.Function, args []Value) Value {
+		m := muxOf(e, args[0].(*Value))
+		m.pats = append(m.pats, cstr(args[1]))
+		m.hs = append(m.hs, args[2])
+		return nil
+	}
+	intrinsics["(*net/http.ServeMux).HandleFunc"] = func(e *Engine, fr *frame, fn *ssa.Function, args []Value) Value {
+		m := muxOf(e, args[0].(*Value))
+		hf := e.P.ByPath["net/http"].Type("HandlerFunc").Type()
+		m.pats = append(m.pats, cstr(args[1]))
+		m.hs = append(m.hs, Iface{T: hf, V: args[2]})
+		return nil
+	}
+	intrinsics["(*net/http.ServeMux).ServeHTTP"] = func(e *Engine, fr *frame, fn *ssa.Function, args []Value) Value {
+		m := muxOf(e, args[0].(*Value))
+		w, req := args[1].(Iface), args[2].(*Value)
+		// r.URL.Path
+		rs := (*req).(Struct)
+		rt := e.P.ByPath["net/http"].Type("Request").Type().Underlying().(*types.Struct)
+		var path string
+		for i := 0; i < rt.NumFields(); i++ {
+			if rt.Field(i).Name() == "URL" {
+				up := rs[i].(*Value)
+				if up == nil {
+					panic(&goPanic{runtime: "invalid memory address or nil pointer dereference"})
+				}
+				path = e.urlOf(up).Path
+			}
+		}
+		for i, p := range m.pats {
+			if p == path {
+				h := m.hs[i].(Iface)
+				meth := e.P.Prog.LookupMethod(h.T, nil, "ServeHTTP")
+				return e.callFunction(fr, meth, []Value{h.V, w, req}, nil)
+			}
+		}
+		// http.NotFound
+		wh := e.P.Prog.LookupMethod(w.T, nil, "WriteHeader")
+		e.callFunction(fr, wh, []Value{w.V, e.st.Const(64, 404)}, nil)
+		e.ioWrite(fr, w, Str{S: "404 page not found\n"})
+		return nil
+	}
+
+	// ------------------------------------------------------------ encoding/json (structure only)
+	intrinsics["(*encoding/json.Encoder).Encode"] = func(e *Engine, fr *frame, fn *ssa.Function, args []Value) Value {
+		enc := (*args[0].(*Value)).(Struct)
+		e.ioWrite(fr, enc[0].(Iface), Str{S: "<json>\n"})
+		return Iface{}
+	}
+	intrinsics["(*encoding/json.Encoder).SetIndent"] = noop
+	intrinsics["(*encoding/json.Decoder).Decode"] = func(e *Engine, fr *frame, fn *ssa.Function, args []Value) Value {
+		dec := (*args[0].(*Value)).(Struct)
+		rd := dec[0].(Iface) // the io.Reader
+		text, ok := e.readerText(rd)
+		if !ok {
+			panic(unsupported("json.Decoder over a reader that is not a *strings.Reader / nil body"))
+		}
+		var generic map[string]interface{}
+		if err := json.Unmarshal([]byte(text), &generic); err != nil {
+			return e.newErrorIface("<json: " + err.Error() + ">")
+		}
+		target := args[1].(Iface)
+		pt, okp := target.T.(*types.Pointer)
+		if !okp {
+			panic(unsupported("json Decode target is not a pointer"))
+		}
+		st, oks := pt.Elem().Underlying().(*types.Struct)
+		if !oks {
+			panic(unsupported("json Decode target is not a struct"))
+		}
+		obj := (*target.V.(*Value)).(Struct)
+		for i := 0; i < st.NumFields(); i++ {
+			f := st.Field(i)
+			name := f.Name()
+			if tag := reflect.StructTag(st.Tag(i)).Get("json"); tag != "" {
+				name = strings.Split(tag, ",")[0]
+			}
+			for k, v := range generic {
+				if !strings.EqualFold(k, name) {
+					continue
+				}
+				switch x := v.(type) {
+				case string:
+					if isStringT(f.Type()) {
+						obj[i] = Str{S: x}
+					} else {
+						return e.newErrorIface("<json: cannot unmarshal string>")
+					}
+				case float64:
+					if isIntegerT(f.Type()) {
+						obj[i] = e.st.Const(intWidth(f.Type()), uint64(int64(x)))
+					} else {
+						return e.newErrorIface("<json: cannot unmarshal number>")
+					}
+				}
+			}
+		}
+		return Iface{}
+	}
+
+	// ------------------------------------------------------------ net: IP parsing
+	intrinsics["net.ParseIP"] = func(e *Engine, fr *frame, fn *ssa.Function, args []Value) Value {
+		s := args[0].(Str)
+		if s.IsSym() {
+			panic(unsupported("net.ParseIP of a symbolic string (use the harness's symbolic peer marker)"))
+		}
+		if ip, ok := e.symIPs[s.S]; ok {
+			return ip
+		}
+		ip := net.ParseIP(s.S)
+		if ip == nil {
+			return Slice{Nil: true}
+		}
+		return e.bytesVal(ip)
+	}
+	intrinsics["net.ParseCIDR"] = func(e *Engine, fr *frame, fn *ssa.Function, args []Value) Value {
+		ip, n, err := net.ParseCIDR(cstr(args[0]))
+		if err != nil {
+			return Tuple{Slice{Nil: true}, (*Value)(nil), e.newErrorIface("<net.ParseCIDR: " + err.Error() + ">")}
+		}
+		p := new(Value)
+		*p = Struct{e.bytesVal(n.IP), e.bytesVal(n.Mask)}
+		return Tuple{e.bytesVal(ip), p, Iface{}}
+	}
+	intrinsics[vrt+"SymIP"] = func(e *Engine, fr *frame, fn *ssa.Function, args []Value) Value {
+		// registers marker -> IP value (a []byte built by the harness from symbolic bytes)
+		e.symIPs[cstr(args[0])] = args[1]
+		return nil
+	}
+
 	// ------------------------------------------------------------ logging: empty bodies
 	pkgIntrinsics["github.com/rs/zerolog"] = chain
 	pkgIntrinsics["github.com/rs/zerolog/log"] = chain
@@ -1016,4 +1161,73 @@ func (e *Engine) globalErr(pkg, name string) Value {
 		return e.newErrorIface("<" + pkg + "." + name + ">")
 	}
 	return *e.globalAddr(g)
+}
+
+func (e *Engine) bytesVal(b []byte) Slice {
+	vs := make([]Value, len(b))
+	for i, c := range b {
+		vs[i] = e.st.Const(8, uint64(c))
+	}
+	return Slice{V: vs}
+}
+
+// readerText extracts the text behind an io.Reader built from a concrete
+// string (strings.NewReader, possibly wrapped by io.NopCloser / http.NoBody).
+func (e *Engine) readerText(rd Iface) (string, bool) {
+	if rd.T == nil {
+		return "", true
+	}
+	ts := rd.T.String()
+	switch {
+	case strings.HasSuffix(ts, "strings.Reader"):
+		p, ok := rd.V.(*Value)
+		if !ok || p == nil {
+			return "", false
+		}
+		st := (*p).(Struct)
+		if s, ok := st[0].(Str); ok && !s.IsSym() {
+			return s.S, true
+		}
+		return "", false
+	case strings.HasSuffix(ts, "io.nopCloser") || strings.HasSuffix(ts, "io.nopCloserWriterTo"):
+		if st, ok := rd.V.(Struct); ok {
+			if inner, ok := st[0].(Iface); ok {
+				return e.readerText(inner)
+			}
+		}
+	case strings.HasSuffix(ts, "http.noBody"):
+		return "", true
+	}
+	// a wrapper struct embedding the reader as its first field
+	switch v := rd.V.(type) {
+	case Struct:
+		if len(v) > 0 {
+			if p, ok := v[0].(*Value); ok && p != nil {
+				if st, ok := (*p).(Struct); ok && len(st) > 0 {
+					if s, ok := st[0].(Str); ok && !s.IsSym() {
+						return s.S, true
+					}
+				}
+			}
+			if inner, ok := v[0].(Iface); ok {
+				return e.readerText(inner)
+			}
+		}
+	case *Value:
+		if v != nil {
+			if st, ok := (*v).(Struct); ok && len(st) > 0 {
+				if inner, ok := st[0].(Iface); ok {
+					return e.readerText(inner)
+				}
+				if p, ok := st[0].(*Value); ok && p != nil {
+					if st2, ok := (*p).(Struct); ok && len(st2) > 0 {
+						if s, ok := st2[0].(Str); ok && !s.IsSym() {
+							return s.S, true
+						}
+					}
+				}
+			}
+		}
+	}
+	return "", false
 }
